@@ -12,6 +12,7 @@ RULE = ("signatures c(x) ** ... ** c(x) ** r(x) for contexts c in {x, F(x) (co- 
         "permutations, monotonicity under specialisation; fixing clause: types of depth <= 3 over variables with bounds from a chain, each variable with a "
         "single polarity, fixed type compared with every corner instantiation; non-trivial = at least two distinct non-Top/Bottom arguments; distinct by (language, schema, argument tuple)")
 ASSUMPTIONS = ["arguments that meet the variable are pairwise comparable (the property's premise)"]
+INVARIANTS = True   # runner.run_invariants: hypotheses of the engine theorems evaluated on the model's runs of this check's infer lines
 TRUSTED = ["harness/infer.py", "harness/refsub.py (oracle)"]
 
 X_ = ('v', 0)
